@@ -91,7 +91,9 @@ class ApiModel(object):
             self.model = self.sf.get_semantic_constraints()
             self.added, self.removed = set(), set()
             return
-        if r[1] != "ValueError":
+        if r[1] != "ValueError" and reason != "non-string key":
+            # (a key that is not a string is refused with whatever the first string operation on it raises; the
+            # statement names ValueError for the listed kinds of bad update only - atomicity is judged for all)
             self.disagree("rejection-not-ValueError", "%r (%s) raised %s" % (value, reason, r[1]))
         after = self.observe()
         if after != before:
